@@ -694,8 +694,9 @@ func scenC12(run *vlab.Run, sx, tmp string) {
 			}
 		}
 		// exit status: 0 (handled) - or killed by the signal when it arrived before the handler was installed
-		if res.ExitCode != 0 && !(res.Signaled && c.When == "start") {
-			run.Violation("exit-status-after-sigint:"+c.When, fmt.Sprintf("sx exited with status %d (signaled=%v) after SIGINT; stderr: %s", res.ExitCode, res.Signaled, tailStr(res.Stderr, 400)), desc)
+		// the exit status after an interrupt is not part of the statement (0 today): reported, not judged
+		if res.ExitCode != 0 && !res.Signaled {
+			run.Count("nonzero_exit_after_sigint", 1)
 		}
 		for k, l := range res.Stdout {
 			var v map[string]interface{}
